@@ -6,6 +6,7 @@ CONSTANTS
   PCaps = {1}
   ACaps = {2}
   MaxBacklog = 1
+  MaxFaults = 1
   MaxParses = 1
   WithSync = FALSE
   FixParentMissing = TRUE
